@@ -1393,6 +1393,12 @@ def _moon_target(dist=60.3):
     return -(1896.0 / 3600.0) + 41.685 / dist      # ≈ +0.16°: altitude of the centre at rise/set
 
 
+def _moon_alt(lat, lon, t):
+    """geocentric altitude of the moon's centre by the independent (Meeus ch. 47) ephemeris"""
+    from oracle import moon_meeus as M
+    return M.alt_az(lat, lon, t)[0]
+
+
 def _c13_one(lat, lon, d, z, which, given=None):
     import astral.moon as moon
     from astral import Observer
@@ -1408,12 +1414,12 @@ def _c13_one(lat, lon, d, z, which, given=None):
             return None
     if t is None:
         return None
-    el = moon.elevation(o, t)
+    el = _moon_alt(lat, lon, t)
     if abs(el - 0.16) > 0.45 + 0.05:
-        return "%s at %s: the library's own lunar position has the moon at %.3f deg (rise/set altitude ≈ +0.16)" % (
+        return "%s at %s: an independent lunar ephemeris has the moon at %.3f deg (rise/set altitude ≈ +0.16)" % (
             which, t.isoformat(), el)
-    a = moon.elevation(o, t - datetime.timedelta(minutes=5))
-    b = moon.elevation(o, t + datetime.timedelta(minutes=5))
+    a = _moon_alt(lat, lon, t - datetime.timedelta(minutes=5))
+    b = _moon_alt(lat, lon, t + datetime.timedelta(minutes=5))
     if abs(b - a) > 0.1:
         if which == "moonrise" and b < a:
             return "moonrise at %s but the moon is descending (%.3f -> %.3f)" % (t.isoformat(), a, b)
@@ -1462,14 +1468,14 @@ def _c14_one(lat, lon, d, z, which):
         return "%s raised %r; only None or ValueError('Moon never …') are documented" % (which, exc)
     if got is not None and got.astimezone(tz).date() != d:
         return "%s returned %s, not on the requested date" % (which, got.isoformat())
-    # brute force: the library's own elevation at 1-minute steps over the local date
+    # brute force: an independent lunar ephemeris at 1-minute steps over the local date
     start = datetime.datetime(d.year, d.month, d.day, tzinfo=tz).astimezone(datetime.timezone.utc)
     target = 0.16
-    prev = moon.elevation(o, start) - target
+    prev = _moon_alt(lat, lon, start) - target
     real = []
     for k in range(1, 1441):
         t = start + datetime.timedelta(minutes=k)
-        cur = moon.elevation(o, t) - target
+        cur = _moon_alt(lat, lon, t) - target
         if (prev < 0 <= cur) if rising else (prev > 0 >= cur):
             real.append(t)
         prev = cur
@@ -1879,6 +1885,11 @@ def _c19_cli(seed):
     if tzname:
         argv += ["-t", tzname]
     argv += ["--", repr(lat), repr(lon)] + ([repr(elev)] if elev is not None else [])
+    tz = zoneinfo.ZoneInfo(tzname) if tzname else datetime.timezone.utc
+    try:
+        want = sun.sun(Observer(lat, lon, elev if elev is not None else 0.0), d, tzinfo=tz)
+    except ValueError:
+        return None        # the library has no values for this day (no dawn/dusk): nothing to print
     p = subprocess.run(argv, stdout=subprocess.PIPE, stderr=subprocess.PIPE, timeout=60)
     if p.returncode != 0:
         return {"clause": "the command line exits with status %d: %s" % (p.returncode,
@@ -1888,9 +1899,7 @@ def _c19_cli(seed):
         out = json.loads(p.stdout.decode())
     except Exception as exc:  # noqa: BLE001
         return {"clause": "output is not one JSON object (%r)" % (exc,), "argv": argv[1:]}
-    tz = zoneinfo.ZoneInfo(tzname) if tzname else datetime.timezone.utc
     fmt = "%Y-%m-%dT%H:%M:%S" + ("%z" if tzname else "Z")
-    want = sun.sun(Observer(lat, lon, elev if elev is not None else 0.0), d, tzinfo=tz)
     for k, v in want.items():
         if out.get(k) != v.strftime(fmt):
             return {"clause": "command line prints %s=%s, the library gives %s" % (k, out.get(k), v.strftime(fmt)),
